@@ -299,3 +299,26 @@ func ZZC07Wide(n int) {
 	zzv.Assert(o2.id == 2, "wide:request-after-a-wide-one-not-served")
 	zzCheckRoute("wide", o2.pattern, p2, o2.params)
 }
+
+// ZZC07Grp(n): two routers created by one Group; only one of them is given an interceptor option.
+// The other must behave as if it were alone: for it the same rule text is a regular expression.
+// n = max length of the parameter value.
+func ZZC07Grp(n int) {
+	g := NewGroup[*hnd](zzCall, &hnd{id: id404}, zzB405, zzBOpt)
+	var a, b *Router[*hnd]
+	if zzv.Choice("order", 2) == 0 {
+		a = g.New("a", NewPathVersion("", "v1"), WithDigitInterceptor("dg"))
+		b = g.New("b", nil)
+	} else {
+		b = g.New("b", nil)
+		a = g.New("a", NewPathVersion("", "v1"), WithDigitInterceptor("dg"))
+	}
+	a.Handle("/p/{id:dg}", &hnd{id: 1}, nil, "GET")
+	b.Handle("/p/{id:dg}", &hnd{id: 2}, nil, "GET")
+	v := zzv.Bytes("v", n)
+	oa, _ := zzServe(a, zzReq("GET", "/p/"+v))
+	ob, _ := zzServe(b, zzReq("GET", "/p/"+v))
+	zzv.Cover("group-siblings")
+	zzv.Assert((oa.id == 1) == zzAllDigits(v) && (oa.id == 1 || oa.id == id404), "siblings:the-router-with-the-interceptor-does-not-use-it")
+	zzv.Assert((ob.id == 2) == (v == "dg") && (ob.id == 2 || ob.id == id404), "siblings:an-option-given-to-one-router-shows-in-its-sibling")
+}
